@@ -391,6 +391,41 @@ theorem selectLoop_no_leak {σ : Type} (W : PinWorld σ) (c0 : Nat → Int) (h0 
       refine ⟨by simp, fun _ => ?_⟩
       exact unwind_all W c0 h0 tt _ (fun j => by rw [W.inc_fail w i hf j]; exact h j)
 
+/-- **The TTL filter of `database.SelectSegments` gives back the pin of every segment it drops** and
+keeps exactly the pin of every segment it returns: if the caller owns one pin per element of
+`kept ++ segs` (what `selectSegments` handed over), afterwards it owns one per element of the
+returned list, which is `kept` followed by the non-expired elements of `segs`. -/
+theorem filterLoop_no_leak {σ : Type} (W : PinWorld σ) (expired : Nat → Bool) (c0 : Nat → Int) (h0 : ∀ j, 0 ≤ c0 j) :
+    ∀ (segs : List Nat) (w : σ) (kept : List Nat),
+      (∀ j, W.cnt w j = c0 j + kept.count j + segs.count j) →
+      (filterLoop W.decRef expired w segs kept).2 = kept ++ segs.filter (fun i => !expired i) ∧
+      ∀ j, W.cnt (filterLoop W.decRef expired w segs kept).1 j =
+        c0 j + ((filterLoop W.decRef expired w segs kept).2.count j : Int)
+  | [], w, kept, h => by
+    simp only [filterLoop]
+    refine ⟨by simp, fun j => ?_⟩
+    have := h j; simp at this; exact this
+  | i :: rest, w, kept, h => by
+    simp only [filterLoop]
+    by_cases he : expired i = true
+    · simp only [he, if_true]
+      have hpos : 0 < W.cnt w i := by
+        have := h i; rw [count_cons_int] at this; simp at this
+        have := h0 i
+        have h1 : (0 : Int) ≤ (List.count i kept : Int) := Int.natCast_nonneg _
+        have h2 : (0 : Int) ≤ (List.count i rest : Int) := Int.natCast_nonneg _
+        omega
+      have ih := filterLoop_no_leak W expired c0 h0 rest (W.decRef w i) kept (by
+        intro j
+        rw [W.dec w i hpos j, h j, count_cons_int]; omega)
+      simpa [he] using ih
+    · have hf : expired i = false := by simpa using he
+      simp only [hf, Bool.false_eq_true, if_false]
+      have ih := filterLoop_no_leak W expired c0 h0 rest w (kept ++ [i]) (by
+        intro j
+        rw [h j, count_cons_int, count_append_single_int]; omega)
+      simpa [hf, List.append_assoc] using ih
+
 /-- the same for the repaired `segments(ctx, true)` of the rotation tick -/
 theorem segmentsLoop_no_leak {σ : Type} (W : PinWorld σ) (c0 : Nat → Int) (h0 : ∀ j, 0 ≤ c0 j) :
     ∀ (ids : List Nat) (w : σ) (tt : List Nat), (∀ j, W.cnt w j = c0 j + tt.count j) →
@@ -561,6 +596,13 @@ example : Reachable demoHeld ∧ demoHeld.sh.down = false ∧ demoHeld.sh.mbd = 
 /-- a reachable state in which a thread is committed to the delete (second half) -/
 example : ((run State.init (demoDelete.take 16)).map fun s =>
     (s.sh.mbd, s.sh.dir, s.sh.rc, s.ts.map (fun th => pend th.pc))) = some (true, true, 0, [true, false]) := by decide
+
+/-- `filterLoop_no_leak`: segments 0 and 1 expired, all three pinned → only the pin on 2 remains -/
+example : filterLoop demoWorld.decRef (fun i => i < 2) (fun _ => 1) [2, 1, 0] [] = ((fun j => if j = 0 then 0 else if j = 1 then 0 else 1), [2]) := by
+  refine Prod.ext ?_ rfl
+  funext j
+  simp [filterLoop, demoWorld]
+  by_cases h0 : j = 0 <;> by_cases h1 : j = 1 <;> simp_all
 
 /-- `selectLoop_no_leak` on a world where the second `incRef` fails -/
 example : (selectLoop demoWorld.incRef demoWorld.decRef demoWorld.touch (fun _ => 0) [0, 1, 2] []).2 = none ∧
